@@ -40,10 +40,10 @@ ThSet == { F.ths[t] : t \in DOMAIN F.ths }
 
 \* what an honest member of fixture G produces for (threshold T, index i)
 HonestVoteOf(G, v, T, i) == [v |-> v, ci |-> i, cs |-> StepPrecommit, cd |-> 1, pb |-> "ok",
-                             j |-> Max0(Seat(G, v, T, i, StepPrecommit, 1)), sb |-> 1, sr |-> 1, si |-> i, bk |-> 0]
+                             j |-> Max0(Seat(G, v, T, i, StepPrecommit, 1)), sb |-> 1, sr |-> 1, si |-> i, bk |-> 0, ls |-> 1]
 HonestVote(v, T, i) == HonestVoteOf(F, v, T, i)
 HonestProp(p, T, i) == HonestPropOf(F, p, T, i)
-StrangerVote(i) == [v |-> NV(F) + 1, ci |-> i, cs |-> StepPrecommit, cd |-> 1, pb |-> "ok", j |-> 1, sb |-> 1, sr |-> 1, si |-> i, bk |-> 0]
+StrangerVote(i) == [v |-> NV(F) + 1, ci |-> i, cs |-> StepPrecommit, cd |-> 1, pb |-> "ok", j |-> 1, sb |-> 1, sr |-> 1, si |-> i, bk |-> 0, ls |-> 1]
 \* certificate votes: step Certificate, the certificate look-back seed, seat count with the certificate set's stake
 HonestCertOf(G, v, T, i) == [v |-> v, ci |-> i, cs |-> StepCert, cd |-> 3, pb |-> "ok",
                              j |-> Max0(G.cseat[v][ThIdx(G, T)][i][StepCert][3]), sb |-> 1, sr |-> 1, si |-> i, bk |-> 0, ls |-> 1]
@@ -57,7 +57,7 @@ Init == \E c \in Cfgs : LET G == Fixtures[c] IN
              agg |-> "ok",
              cf |-> IF G.certRound THEN "list" ELSE "std",
              cvotes |-> IF G.certRound THEN [n \in DOMAIN G.cvoters |-> HonestCertOf(G, G.cvoters[n], G.protoC, 1)] ELSE <<>>,
-             cagg |-> "ok", declC |-> G.protoC, cfidx |-> 1, d |-> 0]
+             cagg |-> "ok", declC |-> G.protoC, cfidx |-> 1, lb |-> 0, d |-> 0]
 
 Forge(new) == /\ h.d < (IF h.cfg \in Deep THEN Depth ELSE Depth - 1)
               /\ LET x == new IN h' = [x EXCEPT !.d = h.d + 1]
@@ -126,6 +126,25 @@ ChooseVoters == \E S \in SUBSET OnlineChamber(F.vals) :
 ResignRetired == \E n \in DOMAIN h.votes :
           /\ h.votes[n].v \in { F.rekeyed[m] : m \in DOMAIN F.rekeyed } /\ h.votes[n].bk = 0 /\ h.votes[n].sb # 0
           /\ Forge([h EXCEPT !.votes[n].bk = 1])
+\* the look-back validator trie is not readable on the verifying node
+LookBackGone == F.hasCurrent /\ h.lb = 0 /\ Forge([h EXCEPT !.lb = 1])
+\* a header produced entirely by the NEWCOMER of the current validator set (registered after the look-back block): its proposer
+\* credential and its precommit, list index and seat counts from the current set -- shown to a node that can / cannot read the
+\* look-back set
+NewcomerVote == [v |-> NV(F) + 1, ci |-> h.vidx, cs |-> StepPrecommit, cd |-> 1, pb |-> "ok",
+                 j |-> Max0(F.useat[NV(F) + 1][ThIdx(F, h.declV)][h.vidx][StepPrecommit][1]), sb |-> 1, sr |-> 1, si |-> h.vidx, bk |-> 0, ls |-> 3]
+NewcomerProp == [p |-> NV(F) + 1, ci |-> h.pidx, cs |-> StepProposal, cd |-> 1, pb |-> "ok",
+                 j |-> Max0(F.useat[NV(F) + 1][ThIdx(F, h.declP)][h.pidx][StepProposal][1]), prio |-> "ok"]
+CurrentSetHeader == \E gone \in BOOLEAN :
+          /\ F.hasCurrent
+          /\ Forge([h EXCEPT !.votes = <<NewcomerVote>>, !.prop = NewcomerProp, !.lb = IF gone THEN 1 ELSE h.lb])
+\* the same with the look-back members voting as the current set sees them (their indices and seat counts there) next to the newcomer
+CurrentSetVotes == \E S \in SUBSET OnlineChamber(F.vals) :
+          /\ F.hasCurrent /\ S # {} /\ Cardinality(S) < MaxVotes
+          /\ Forge([h EXCEPT !.votes = <<NewcomerVote>> \o [n \in 1..Cardinality(S) |->
+                                           [HonestVote(Nth(S, n), h.declV, h.vidx) EXCEPT !.ls = 3,
+                                              !.j = Max0(F.useat[Nth(S, n)][ThIdx(F, h.declV)][h.vidx][StepPrecommit][1])]],
+                          !.prop = NewcomerProp, !.lb = 1])
 Reorder == \E n \in DOMAIN h.votes : n < Len(h.votes) /\
           LET vs == h.votes IN
           Forge([h EXCEPT !.votes = [m \in DOMAIN vs |-> IF m = n THEN vs[n + 1] ELSE IF m = n + 1 THEN vs[n] ELSE vs[m]]])
@@ -238,7 +257,7 @@ JunkCert == \E c \in {"junk", "absent"} : ~F.certRound /\ h.cf = "std" /\ Forge(
 
 NextCert == \/ CDrop \/ CDup \/ CRepeat \/ CChooseVoters \/ CAdd \/ CAlterCred \/ CReplaySet \/ CInflate \/ CInflateMax \/ CResign \/ CFromPrecommits \/ CFromStakeSet
             \/ DeclareC \/ CCorruptAgg \/ COmit \/ CEmpty \/ SetCfIdx \/ JunkCert
-NextPre == \/ Drop \/ Dup \/ Repeat \/ ChooseVoters \/ ResignRetired \/ Add \/ AlterCred \/ Inflate \/ InflateMax \/ Resign \/ ReplaySet \/ ResignSet \/ Reorder \/ CorruptAgg
+NextPre == \/ Drop \/ Dup \/ Repeat \/ ChooseVoters \/ ResignRetired \/ LookBackGone \/ CurrentSetHeader \/ CurrentSetVotes \/ Add \/ AlterCred \/ Inflate \/ InflateMax \/ Resign \/ ReplaySet \/ ResignSet \/ Reorder \/ CorruptAgg
            \/ DeclareV \/ DeclareP \/ SetVidx \/ SetPidx
            \/ SwapProposer \/ BadPriority \/ PropInflate \/ PropAlter
 Next == NextCert \/ (Side = "all" /\ NextPre)
@@ -248,7 +267,7 @@ Spec == Init /\ [][Next]_vars
 Unexplained == { f \in Fail(F, h, Dev) : FailSig(f) \notin Dev }
 UnexplainedAC == { f \in FailAC(F, h, Dev) : FailSig(f) \notin Dev }
 Cex(fs) == PrintT("@@J " \o ToJson([kind |-> "CEX", h |-> h, fail |-> fs])) /\ FALSE
-Safe == /\ CodeAccepts(F, h) => (Unexplained = {} \/ Cex(Unexplained))
+Safe == /\ CodeAcceptsCore(F, h) => (Unexplained = {} \/ Cex(Unexplained))
         /\ CodeAcceptsAC(F, h) => (UnexplainedAC = {} \/ Cex(UnexplainedAC))
 \* sanity of the two layers: an entitled header that the forger did not damage is accepted
 HonestAccepted == (h.d = 0) => (CodeAccepts(F, h) /\ Entitled(F, h) /\ (F.certRound => (CodeAcceptsAC(F, h) /\ AcEntitled(F, h))))
@@ -262,10 +281,10 @@ Tempting == TemptingX(VX(F, h, "pre")) /\ (F.certRound => (h.cf = "list" /\ Temp
 PH(x) == (SumSeq([n \in DOMAIN x.votes |-> (n + 1) * (x.votes[n].j + 3 * x.votes[n].v + 5 * x.votes[n].ci + 7 * x.votes[n].cs + 11 * x.votes[n].sb + x.votes[n].si)])
           + SumSeq([n \in DOMAIN x.votes |-> 13 * x.votes[n].bk])
           + SumSeq([n \in DOMAIN x.cvotes |-> (n + 2) * (x.cvotes[n].j + 3 * x.cvotes[n].v + 5 * x.cvotes[n].ci + 7 * x.cvotes[n].cs + 11 * x.cvotes[n].sb + x.cvotes[n].ls)])
-          + x.declV + 3 * x.declP + 5 * x.declC + x.pidx + 2 * x.vidx + x.prop.j + 3 * x.prop.p + Len(x.votes) + 2 * Len(x.cvotes)) % 8
-Printed == Sample = 8 \/ h.d <= 1 \/ ~Tempting \/ CodeAccepts(F, h) \/ CodeAcceptsAC(F, h) \/ PH(h) = Sample
+          + 17 * x.lb + x.declV + 3 * x.declP + 5 * x.declC + x.pidx + 2 * x.vidx + x.prop.j + 3 * x.prop.p + Len(x.votes) + 2 * Len(x.cvotes)) % 8
+Printed == Sample = 8 \/ h.d <= 1 \/ ~Tempting \/ CodeAcceptsCore(F, h) \/ CodeAcceptsAC(F, h) \/ PH(h) = Sample
 Leaf == (GenMode = "all" /\ Printed) =>
-          PrintT("@@J " \o ToJson([kind |-> "B", h |-> h, ca |-> CodeAccepts(F, h), en |-> Entitled(F, h), tp |-> Tempting,
+          PrintT("@@J " \o ToJson([kind |-> "B", h |-> h, ca |-> CodeAcceptsCore(F, h), en |-> Entitled(F, h), tp |-> Tempting,
                                    cac |-> CodeAcceptsAC(F, h), enac |-> (F.certRound /\ AcEntitled(F, h)),
                                    cl |-> Present(F, VX(F, h, "pre")) \cup { "p:" \o c : c \in PLab(F, h) }
                                           \cup (IF F.certRound THEN { "c:" \o c : c \in Present(F, VX(F, h, "cert")) } \cup {"c:" \o h.cf} ELSE {h.cf})]))
